@@ -138,7 +138,7 @@ SLOT = {
           "tail  ", "back\\slash", "&amp_x;", "a &copy_b; c", "&amp;", "&lt;tag&gt;", "x_y_z", "http://a.b/c", "a@b.cd", "\\&amp;lt;", "\\&copy;", "it's", "100%", "a|b", "$m$", "", " ", "[link](/u)",
           "![i](/p.png)", "<span a=\"1\">", "[foo]: /u", "[^1]: n", "*[HTML]: t", "~~d~~", "==m==", "^s^", "a*", "_u", "end.", "HTML", "[foo]", "[bar][foo]", ">!s!<", "[r(t)]"],
     "U": ["/u", "http://example.com/café", "http://e.com/a[1]", "http://e.com/a b", "javascript:x", "x.png", "a&b=\"c\"", "/u%20v", "", "<u>", "./README.md", "/a(b)c", "HTTP://E.F/g", "data:image/png;base64,A",
-          "#frag", "//host/p", "mailto:a@b.c", "/ü"],
+          "#frag", "//host/p", "mailto:a@b.c", "/ü", "/p&#xD800;q", "&#57343;x", "/a&#0;b", "/c&#x110000;d", "http://e.f/&#xDFFF;", "&#1114112;"],
     "C": ["a", "bb", "x \\| y", "`a|b`", "", " ", "a\x0cb", "*e*", "1", "a\\", "<b>", "&amp;", "c c"],
     "B": ["x = 1;\x0cy = 2", "a\n\nb", "", " ", "   ", "  x  ", "\tx", "a b", "<b>&amp;", "`", "a\\*b", "a\n   b", "*not em*", "&lt;", "x", "line1\nline2", " \n ", "a\x85b", "a\x1cb", "[foo]", "  "],
     "I": ["", "py", " py ", "py x", "&#32;", "{x}", "py&amp;", "\tpy", "c++", "a\"b"],
